@@ -7,6 +7,13 @@ PKGS = {
 }
 
 PROPS = {
+    "C06": {
+        "harnesses": [
+            {"pkg": "interpreter", "name": "VH_C06_CheckSig", "quick": {"params": {"S": 2}}, "thorough": {"params": {"S": 3}}},
+            {"pkg": "interpreter", "name": "VH_C06_MultiSig", "quick": {"params": {"S": 1, "N": 2}}, "thorough": {"params": {"S": 2, "N": 3}}},
+        ],
+        "assumptions": [],
+    },
     "C04": {
         "harnesses": [
             {"pkg": "interpreter", "name": "VH_C04_Accept", "quick": {"params": {"IN": 2, "OUT": 2}}, "thorough": {"params": {"IN": 3, "OUT": 3}}},
